@@ -986,8 +986,7 @@ func (r *RepData) readMP4Segment(vodFS fs.FS, assetPath string, time uint64, nr 
 	if err != nil {
 		return seg, err
 	}
-	sr := bits.NewFixedSliceReader(data)
-	mp4Seg, err := mp4.DecodeFileSR(sr)
+	mp4Seg, err := decodeMP4File(data)
 	if err != nil {
 		return seg, fmt.Errorf("decode %s: %w", repPath, err)
 	}
@@ -1014,6 +1013,17 @@ func (r *RepData) readMP4Segment(vodFS fs.FS, assetPath string, time uint64, nr 
 	}
 
 	return seg, nil
+}
+
+// decodeMP4File decodes an MP4 file. The decoder panics on some malformed input (e.g. a box size
+// smaller than the box header); for a file of the VoD tree that is a decode error, not a crash.
+func decodeMP4File(data []byte) (f *mp4.File, err error) {
+	defer func() {
+		if r := recover(); r != nil {
+			f, err = nil, fmt.Errorf("malformed mp4 file: %v", r)
+		}
+	}()
+	return mp4.DecodeFileSR(bits.NewFixedSliceReader(data))
 }
 
 // readThumbSegment reads a thumbnail segment, and returns an error if file does not exist.
